@@ -35,7 +35,8 @@ LEVEL_TEXT = (
     "(history/schedule independence), the POSIX model and tzrange/tzstr of "
     "the same rules from the first onset on, the first STANDARD component "
     "before it; malformed definitions must raise ValueError; no deadlock, "
-    "every query within its step budget. Rule equivalence is input sampling.")
+    "every query within its step budget. Rule equivalence is input sampling."
+    ' Session 3 added: UNTIL-bounded components, 9/10/11/20 onsets, queries beyond the last onset, one-aspect neighbour zones in one file, a dormant second STANDARD component, decorated zones (TZURL, LAST-MODIFIED, COMMENT, VALUE=DATE-TIME, lower-case names, VEVENTs around), property order inside components, one calendar object per zone, TZIDs with blanks under narrow folds, equivalent RRULE spellings, malformed blocks next to well-formed ones.')
 LEVEL_NOTE = (
     "Trusted: the POSIX model (cross-checked with glibc under C08); SimLock; "
     "line-granularity pre-emption in tz/tz.py, tz/_common.py and rrule.py. "
